@@ -24,7 +24,7 @@ ASSUMPTIONS = [
     "generated curves are monotone non-decreasing sequences of 257 values in 0..0x8000",
 ]
 REQUIRED_LABELS = {
-    "quick": ["macro_single", "macro_multi", "macro_too_many", "macro_duplicate", "axis_normal", "axis_reversed", "unset_mapping_link", "curve_custom", "quantized", "convert_direct", "freed_slot_link", "link_to_controllerless_module", "multictl_out_offset_negative", "multictl_out_offset_set", "compact_target_before_other_target", "mixed_range_kinds_in_one_fanout", "every_range_shape_with_edge_windows"],
+    "quick": ["macro_single", "macro_multi", "macro_too_many", "macro_duplicate", "axis_normal", "axis_reversed", "unset_mapping_link", "curve_custom", "quantized", "convert_direct", "freed_slot_link", "link_to_controllerless_module", "multictl_out_offset_negative", "multictl_out_offset_set", "compact_target_before_other_target", "mixed_range_kinds_in_one_fanout", "every_range_shape_with_edge_windows", "windows_edited_in_place_then_swept_again"],
     "thorough": ["macro_single", "macro_multi", "macro_too_many", "macro_duplicate", "axis_normal", "axis_reversed", "unset_mapping_link", "curve_custom", "quantized", "convert_direct", "compact_target"],
 }
 
@@ -229,6 +229,7 @@ def axis_case(draw):
         # still set), and a link to a module that lacks the mapped controller (the Output module)
         "freed_slot": draw(st.booleans()),
         "link_to_output": draw(st.booleans()),
+        "second_config": draw(st.sampled_from([None, None, "reverse", "narrow"])),
         # the MultiCtl's remaining controllers take any in-range value; containment and monotonicity hold whatever they are
         "others": draw(st.one_of(st.just({}), st.fixed_dictionaries({}, optional={"out_offset": vs.edge_int(-16384, 16384, extra=(-1, 1, -8192, 8192)), "response": vs.edge_int(0, 1000, extra=(1, 500)), "sample_rate": vs.edge_int(1, 32768, extra=(150,))}))),
     }
@@ -282,6 +283,34 @@ def run_axis_case(ctx, case, stride=1):
                 if (a <= b and got < pv) or (a > b and got > pv):
                     raise PropertyViolation("C20.propagate.monotone", "input %d -> %d delivers %r after %r to %s.%s (window %r)" % (v - stride, v, got, pv, t["type"], t["ctl"], t["window"]))
             prev[i] = got
+    # the same MultiCtl goes on being used: its windows are edited in place (reversed / narrowed), and the
+    # inputs now come in descending order, starting with the value it was driven with last
+    if case.get("second_config"):
+        for i, t in enumerate(case["targets"]):
+            mp = mc.mappings.values[(1 if ghost is not None else 0) + i]
+            a, b = t["window"]
+            if case["second_config"] == "reverse":
+                mp.min, mp.max = b, a
+            else:
+                mp.min, mp.max = min(a, b) // 2, max(a, b)
+        prev2 = [None] * len(mods)
+        seq = list(case.get("inputs") or range(0, 32769, stride))[::-1]
+        for v in seq:
+            try:
+                mc.value = v
+            except Exception as e:  # noqa: BLE001
+                raise PropertyViolation("C20.propagate.no_exception", "second configuration, value=%d raised %s: %s" % (v, type(e).__name__, e))
+            for i, t in enumerate(case["targets"]):
+                got = mods[i].controller_values[ctlnames[i]]
+                mp = mc.mappings.values[(1 if ghost is not None else 0) + i]
+                if not (t["min"] <= got <= t["max"]) or not isinstance(got, int):
+                    raise PropertyViolation("C20.propagate.in_range", "second configuration: input %d delivers %r to %s.%s, range [%d,%d]" % (v, got, t["type"], t["ctl"], t["min"], t["max"]))
+                pv = prev2[i]
+                if pv is not None:
+                    # inputs descend: for a normal window the delivered values must not rise, for a reversed one not fall
+                    if (mp.min <= mp.max and got > pv) or (mp.min > mp.max and got < pv):
+                        raise PropertyViolation("C20.propagate.monotone", "after the windows were edited in place (now %d..%d): input %d delivers %r after %r (inputs descending) to %s.%s" % (mp.min, mp.max, v, got, pv, t["type"], t["ctl"]), key="C20.propagate.monotone.second_config")
+                prev2[i] = got
     for x, before in zip(uninvolved, uninvolved_before):
         if dict(x.controller_values) != before:
             raise PropertyViolation("C20.propagate.unlinked_module_changed", "a module that is not (or no longer) linked to the MultiCtl changed: %r -> %r" % (before, dict(x.controller_values)))
@@ -304,6 +333,8 @@ def run_axis_case(ctx, case, stride=1):
         labels.add("curve_custom")
     if case["quantization"] < 32768:
         labels.add("quantized")
+    if case.get("second_config"):
+        labels.add("windows_edited_in_place_then_swept_again")
     kinds = [("compact" if t["kind"] == "compact" else "other") for t in case["targets"]]
     if "compact" in kinds and "other" in kinds[kinds.index("compact") + 1 :]:
         labels.add("compact_target_before_other_target")
